@@ -7804,3 +7804,143 @@ func ruleFetchedTxUngated(c *Ctx) {
 		c.Fail("OnTransaction", c.P.Pos(fd.Decl.Pos()), "service.OnTransaction decides whether dBFT gets a fetched transaction by asking the ledger/pool: "+strings.Join(bad, ", ")+". The memory pools of validators differ (conflicting spends of one balance); a transaction of the proposal that this node's pool refuses because of what it holds is valid in the proposed block, and without it the node can never accept the proposal - with pools split, no proposal gathers M preparations and block production stops although every validator is honest")
 	}
 }
+
+// ruleWireFieldUsed (C17, C19): a consensus message carries what the receiver needs to rebuild what the sender had.
+// A field that the encoder writes and the decoder reads back, and that nothing else ever reads, is information the
+// wire carries and the node drops: the payload rebuilt from a recovery message is not the payload that was packed
+// into it (another view number => another hash => the original witness no longer fits, finding 87). For every struct
+// type of package consensus with a DecodeBinary method, every field the decoder assigns is read somewhere outside the
+// type's own encoder/decoder (a composite-literal key and the left side of an assignment are writes, not reads).
+func ruleWireFieldUsed(c *Ctx) {
+	pk := c.P.Pkg("pkg/consensus")
+	if pk == nil {
+		c.Lost("wire-field-used.pkg", "package consensus not loaded")
+		return
+	}
+	info := pk.TypesInfo
+	type tinfo struct {
+		nt     *types.Named
+		fields map[*types.Var]token.Pos
+	}
+	var ts []*tinfo
+	for _, fd := range c.P.AllFuncDecls() {
+		if fd.Pkg != pk || fd.Decl.Recv == nil || fd.Decl.Body == nil || fd.Decl.Name.Name != "DecodeBinary" || len(fd.Decl.Recv.List[0].Names) == 0 {
+			continue
+		}
+		rt := fd.Obj.Type().(*types.Signature).Recv().Type()
+		if p, ok := rt.(*types.Pointer); ok {
+			rt = p.Elem()
+		}
+		nt, ok := rt.(*types.Named)
+		if !ok {
+			continue
+		}
+		if _, ok := nt.Underlying().(*types.Struct); !ok {
+			continue
+		}
+		recv := info.ObjectOf(fd.Decl.Recv.List[0].Names[0])
+		ti := &tinfo{nt, map[*types.Var]token.Pos{}}
+		note := func(e ast.Expr) {
+			se, ok := ast.Unparen(e).(*ast.SelectorExpr)
+			if !ok {
+				return
+			}
+			if id, ok := ast.Unparen(se.X).(*ast.Ident); ok && info.ObjectOf(id) == recv {
+				if v, ok := info.ObjectOf(se.Sel).(*types.Var); ok && v.IsField() {
+					if _, seen := ti.fields[v]; !seen {
+						ti.fields[v] = se.Pos()
+					}
+				}
+			}
+		}
+		// assigned: left side of an assignment, operand of &, base of a slice expression handed to a reader, receiver
+		// of a method call (p.field.DecodeBinary(r))
+		ast.Inspect(fd.Decl.Body, func(x ast.Node) bool {
+			switch y := x.(type) {
+			case *ast.AssignStmt:
+				for _, l := range y.Lhs {
+					note(l)
+				}
+			case *ast.UnaryExpr:
+				if y.Op == token.AND {
+					note(y.X)
+				}
+			case *ast.SliceExpr:
+				note(y.X)
+			case *ast.CallExpr:
+				if se, ok := ast.Unparen(y.Fun).(*ast.SelectorExpr); ok {
+					note(se.X)
+				}
+			}
+			return true
+		})
+		ts = append(ts, ti)
+	}
+	sort.Slice(ts, func(i, j int) bool { return ts[i].nt.Obj().Name() < ts[j].nt.Obj().Name() })
+	// reads of fields anywhere in the module outside the codec methods of the owning type
+	read := map[*types.Var]bool{}
+	codec := map[string]bool{"DecodeBinary": true, "EncodeBinary": true}
+	for _, fd := range c.P.AllFuncDecls() {
+		if fd.Decl.Body == nil {
+			continue
+		}
+		finfo := fd.Pkg.TypesInfo
+		var owner *types.Named
+		if fd.Decl.Recv != nil && codec[fd.Decl.Name.Name] {
+			rt := fd.Obj.Type().(*types.Signature).Recv().Type()
+			if p, ok := rt.(*types.Pointer); ok {
+				rt = p.Elem()
+			}
+			owner, _ = rt.(*types.Named)
+		}
+		lhs := map[ast.Expr]bool{}
+		ast.Inspect(fd.Decl.Body, func(x ast.Node) bool {
+			if as, ok := x.(*ast.AssignStmt); ok && (as.Tok == token.ASSIGN || as.Tok == token.DEFINE) {
+				for _, l := range as.Lhs {
+					lhs[ast.Unparen(l)] = true
+				}
+			}
+			return true
+		})
+		ast.Inspect(fd.Decl.Body, func(x ast.Node) bool {
+			se, ok := x.(*ast.SelectorExpr)
+			if !ok || lhs[se] {
+				return true
+			}
+			v, ok := finfo.ObjectOf(se.Sel).(*types.Var)
+			if !ok || !v.IsField() {
+				return true
+			}
+			if owner != nil {
+				// the owning type's own codec does not count
+				if st, ok := owner.Underlying().(*types.Struct); ok {
+					for i := 0; i < st.NumFields(); i++ {
+						if st.Field(i) == v {
+							return true
+						}
+					}
+				}
+			}
+			read[v] = true
+			return true
+		})
+	}
+	n := 0
+	for _, ti := range ts {
+		var fs []*types.Var
+		for v := range ti.fields {
+			fs = append(fs, v)
+		}
+		sort.Slice(fs, func(i, j int) bool { return fs[i].Name() < fs[j].Name() })
+		for _, v := range fs {
+			n++
+			key := ti.nt.Obj().Name() + "." + v.Name()
+			if read[v] {
+				c.OK(key, c.P.Pos(ti.fields[v]), "decoded and used")
+			} else {
+				c.Fail(key, c.P.Pos(ti.fields[v]), fmt.Sprintf("consensus.%s.%s is written by the encoder and read back by the decoder, and nothing else in the module reads it: what the sender put on the wire is dropped by the receiver, and whatever is rebuilt from a decoded %s takes that value from somewhere else (a payload rebuilt from a recovery message then differs from the payload that was packed: another hash, and the witness that travelled with it no longer fits)", ti.nt.Obj().Name(), v.Name(), ti.nt.Obj().Name()))
+			}
+		}
+	}
+	c.Floor("decoded fields of consensus messages", n, 20)
+}
